@@ -234,6 +234,13 @@ def run_check(modname, tier=None, seed=None, replay_path=None):
         shards = [replay['shard']]
     timeout = getattr(mod, 'TIMEOUT', {'quick': 600, 'thorough': 3600}).get(tier, 600)
     os.makedirs(REPLAY_DIR, exist_ok=True)
+    if replay is None:
+        for fn in os.listdir(REPLAY_DIR):  # witnesses of earlier runs of this property are stale
+            if fn.startswith(pid + '-') and fn.endswith('.json'):
+                try:
+                    os.unlink(os.path.join(REPLAY_DIR, fn))
+                except OSError:
+                    pass
     tmpdir = os.path.join(REPLAY_DIR, f'.tmp-{pid}-{os.getpid()}')
     os.makedirs(tmpdir, exist_ok=True)
     env = dict(os.environ)
